@@ -72,4 +72,12 @@ QGridsOf(D) ==
 QOthers(D) ==
     IF D = 2 THEN {GG(<<5, 8>>, <<R(3,2), R(1,2)>>, <<One, R(1,2)>>, Rot2Of(CS_12_13n), FALSE)}
     ELSE {GG(<<4, 6, 5>>, <<R(1,2), One, R(5,4)>>, <<Zero, One, RI(-1)>>, QuatMat(<<1,1,1,1>>), FALSE)}
+\* ---------------------------------------------------------------- thorough lattice: more transform grids and more other grids
+TGridsOf(D) == QGridsOf(D) \cup
+    (IF D = 2 THEN {GG(<<4, 6>>, <<Two, R(1,2)>>, <<RI(-1), R(1,2)>>, FlipX(Rot2Of(CS_90)), FALSE),
+                    GG(<<8, 3>>, <<R(1,2), Two>>, <<One, One>>, Rot2Of(CS_180), TRUE)}
+     ELSE {GG(<<4, 5, 3>>, <<Two, One, R(1,2)>>, <<Zero, R(1,2), RI(-1)>>, FlipX(QuatMat(<<1,1,1,1>>)), FALSE)})
+TOthers(D) == QOthers(D) \cup
+    (IF D = 2 THEN {GG(<<6, 4>>, <<One, One>>, <<R(1,2), Zero>>, Rot2Of(CS_Id), TRUE)}
+     ELSE {GG(<<3, 4, 4>>, <<Two, One, One>>, <<One, Zero, Zero>>, QuatMat(<<1,0,0,0>>), TRUE)})
 =============================================================================
